@@ -218,7 +218,12 @@ def explore_slice(h, sl, deadline, known_regions=(), max_cex=1, validate_every=7
                         else:
                             res["nonreplaying"] += 1
                             entry["assumption_failed"] = nc.assumption_failed
-                            res["errors"].append("counterexample does not replay natively: %r" % (entry,))
+                            if h.float_model == "E" and not nc.error:
+                                # the error model over-approximates IEEE floats: a model that does not replay is inconclusive
+                                c.undecided += 1
+                                res.setdefault("inconclusive_models", []).append(entry["inputs"])
+                            else:
+                                res["errors"].append("counterexample does not replay natively: %r" % (entry,))
                 elif r == z3.sat:
                     cex_seen += 1
                 # known findings: report each listed region that is actually hit (replayed)
